@@ -56,6 +56,8 @@ type Case struct {
 	// (transparent paint) comes right before; 2 a two-stop gradient; 3 a gradient right after a path
 	// that is not drawn; 4 a gradient right after a path outside the level-of-detail range.
 	Fills []int `json:"fills,omitempty"`
+	// LongGap: the last path has hundreds of operations between a curve and a smooth operation.
+	LongGap bool `json:"long_gap,omitempty"`
 }
 
 // applyWithFills drives c.Ops into z; the styling that selects each path's paint, and the paths that
@@ -445,6 +447,37 @@ func genCase(t *rapid.T) Case {
 		c.Ops = append(c.Ops, ops.OpDraw(ops.ClosePathEndPath))
 		c.Fills = append(c.Fills, rapid.SampledFrom([]int{0, 0, 0, 0, 1, 2, 3, 4}).Draw(t, "fill"))
 	}
+	if rapid.IntRange(0, 11).Draw(t, "longgap") == 0 {
+		// one more path: a curve, then hundreds of operations that are no curves of that degree
+		// (counts around 2^8, 2^9 and 2^10), then a smooth operation of the curve's degree: what the
+		// smooth operation reflects depends on the operation right before it, however many there were
+		cube := rapid.Bool().Draw(t, "lg.cube")
+		n := rapid.SampledFrom([]int{255, 256, 257, 512, 1024}).Draw(t, "lg.n") - rapid.IntRange(0, 1).Draw(t, "lg.less")
+		c.Ops = append(c.Ops, ops.OpStartPath(0, 1, 2))
+		if cube {
+			c.Ops = append(c.Ops, ops.OpDraw(ops.AbsCubeTo, 3, 9, 7, -4, 10, 5))
+		} else {
+			c.Ops = append(c.Ops, ops.OpDraw(ops.AbsQuadTo, 3, 9, 10, 5))
+		}
+		for i := 0; i < n; i++ {
+			switch i % 3 {
+			case 0:
+				c.Ops = append(c.Ops, ops.OpDraw(ops.RelHLineTo, 0.25))
+			case 1:
+				c.Ops = append(c.Ops, ops.OpDraw(ops.RelLineTo, -0.25, 0.125))
+			default:
+				c.Ops = append(c.Ops, ops.OpDraw(ops.RelVLineTo, -0.125))
+			}
+		}
+		if cube {
+			c.Ops = append(c.Ops, ops.OpDraw(ops.RelSmoothCubeTo, 2, 3, 5, -1))
+		} else {
+			c.Ops = append(c.Ops, ops.OpDraw(ops.AbsSmoothQuadTo, 4, 4))
+		}
+		c.Ops = append(c.Ops, ops.OpDraw(ops.ClosePathEndPath))
+		c.Fills = append(c.Fills, 0)
+		c.LongGap = true
+	}
 	return c
 }
 
@@ -513,6 +546,9 @@ func classify(c Case) (bool, []string) {
 		case 3, 4:
 			labels = append(labels, "gradient-filled-path-right-after-one-that-is-not-drawn")
 		}
+	}
+	if c.LongGap {
+		labels = append(labels, "hundreds-of-operations-between-a-curve-and-a-smooth-operation")
 	}
 	if c.RectAfterReset {
 		labels = append(labels, "rectangle-given-after-the-viewbox")
